@@ -84,6 +84,19 @@ func (l *txList) Add(tx *types.Transaction, priceBump uint64) (bool, *types.Tran
 	return true, old
 }
 
+// Underbids reports whether Add would refuse the transaction: it shares its nonce
+// with a listed transaction without carrying the price bump required to replace it.
+func (l *txList) Underbids(tx *types.Transaction, priceBump uint64) bool {
+	old := l.txs.Get(tx.Nonce())
+	if old == nil {
+		return false
+	}
+	probe := newTxList(false)
+	probe.Add(old, priceBump)
+	inserted, _ := probe.Add(tx, priceBump)
+	return !inserted
+}
+
 // Forward removes all transactions from the list with a nonce lower than the
 // provided threshold. Every removed transaction is returned for any post-removal
 // maintenance.
